@@ -19,7 +19,7 @@ import (
 
 type c16Params struct {
 	Type  string `json:"type"`
-	Pairs bool   `json:"pairs"`
+	Pairs string `json:"pairs"` // "" = single mutations, "base" = 11 base mutations x all, "all" = all ordered pairs
 }
 
 // mutation edits a valid push-pull message in place; name identifies it.
@@ -199,7 +199,12 @@ func c16Case(t *testing.T, p c16Params, names []string) (res c16Result) {
 		// an SDK client that receives the response: error handler, no panic, still usable
 		if resp != nil && len(resp.PushPullPacks) > 0 && mut.Cuid == c0.cuid {
 			pk := resp.PushPullPacks[0]
-			if d, ok := c0.dts[pk.Key]; ok && (hasErrPack || pk.DUID == d.rep.dt.GetDUID()) {
+			// a non-error response is handed to the SDK client only if it is one the client can receive in
+			// its state: a subscribed datatype never asks to create or subscribe, so a creation/subscription
+			// answer (obtained by forging the option bits or the id) is not something it has to digest
+			ropt := pk.GetPushPullPackOption()
+			expected := hasErrPack || !(ropt.HasCreateBit() || ropt.HasSubscribeBit())
+			if d, ok := c0.dts[pk.Key]; ok && expected && (hasErrPack || pk.DUID == d.rep.dt.GetDUID()) {
 				_, errsBefore, _ := c0.h.Events(pk.Key)
 				var perr interface{}
 				func() {
@@ -260,10 +265,23 @@ func init() {
 			for _, mu := range muts {
 				cases = append(cases, []string{mu.name})
 			}
-			if p.Pairs {
+			if p.Pairs != "" {
 				base := []string{"cuid-other-client", "duid-unknown", "duid-foreign", "key-other", "cp-zero", "cp-ahead", "ops-gap", "ops-repeat", "ops-foreign-cuid", "ops-none", "type-changed"}
+				if p.Pairs == "all" {
+					base = nil
+					for _, mu := range muts {
+						if mu.name != "none" {
+							base = append(base, mu.name)
+						}
+					}
+				}
 				for _, a := range base {
 					for _, mu := range muts {
+						if (a == "duid-foreign" && mu.name == "key-other") || (a == "key-other" && mu.name == "duid-foreign") {
+							// together they form a valid request for the OTHER datatype carrying operations its
+							// honest replica never issued: nothing to refuse, and no convergence owed
+							continue
+						}
 						if mu.name != a && mu.name != "none" {
 							cases = append(cases, []string{a, mu.name})
 						}
